@@ -80,36 +80,42 @@ def mutate(r, s):
     return bytes(s)
 
 
-def member_position_shapes():
+# innermost types put at the bottom of EVERY depth-boundary shape: a fixed-size basic type, the variant (a container
+# without a closing character: it must not count as a struct or array level), string-like types, the fd type, and
+# small containers that add one array / struct level of their own (so the 31/32 shapes reach the limit through them)
+LEAVES = [b"y", b"v", b"s", b"g", b"h", b"av", b"a{sv}", b"(y)", b"(v)"]
+
+
+def member_position_shapes(L=b"y", ns=(31, 32, 33, 34)):
     """nesting boundaries with the deep part at EVERY member position: the depth counters must be applied to each
     member of a struct (first, middle, last) and to a dict value, not only to the first or the last one.  n counts
-    the levels of the kind that is at its limit (32 allowed, 33 not)."""
+    the levels of the kind that is at its limit (32 allowed, 33 not).  L is the innermost type."""
     out = []
     wraps = [(b"(", b")"), (b"(y", b")"), (b"(", b"y)"), (b"(y", b"y)"), (b"(yy", b")"), (b"(a{sv}", b"ay)")]
-    for n in (31, 32, 33, 34):
-        deep_s = b"(" * (n - 1) + b"y" + b")" * (n - 1)          # n-1 struct levels; one more comes from the wrapper
-        deep_a = b"a" * n + b"y"                                  # n array levels
-        deep_a1 = b"a" * (n - 1) + b"y"                           # n-1 array levels; the dict/array wrapper adds one
-        # (1) the same member position at every level: (y(y(y..y..))) / (((..y..)y)y) / (y(y(..y..)y)y)
+    for n in ns:
+        deep_s = b"(" * (n - 1) + L + b")" * (n - 1)            # n-1 struct levels; one more comes from the wrapper
+        deep_a = b"a" * n + L                                     # n array levels
+        deep_a1 = b"a" * (n - 1) + L                              # n-1 array levels; the dict/array wrapper adds one
+        # (1) the same member position at every level: (y(y(y..L..))) / (((..L..)y)y) / (y(y(..L..)y)y)
         for pre, post in wraps:
-            if len(pre + post) * n + 1 <= 255:
-                out.append(pre * n + b"y" + post * n)
+            if len(pre + post) * n + len(L) <= 255:
+                out.append(pre * n + L + post * n)
         # (2) one struct around the deep struct nest, deep part first / middle / last / after a container member
         for pre, post in wraps[1:]:
             out.append(pre + deep_s + post)
         # (3) the deep struct nest two levels down at a non-first and a non-last position
-        deep_s2 = b"(" * (n - 2) + b"y" + b")" * (n - 2)
+        deep_s2 = b"(" * (n - 2) + L + b")" * (n - 2)
         out.append(b"(y(y" + deep_s2 + b"))")
         out.append(b"((" + deep_s2 + b"y)y)")
         out.append(b"(y(" + deep_s2 + b"y))")
         out.append(b"((y" + deep_s2 + b")y)")
         # (4) deep struct nest as a dict value, and as a later member of a struct that is a dict value
-        out.append(b"a{s" + b"(" * n + b"y" + b")" * n + b"}")
+        out.append(b"a{s" + b"(" * n + L + b")" * n + b"}")
         out.append(b"a{s(y" + deep_s + b")}")
         out.append(b"a{s(" + deep_s + b"y)}")
         out.append(b"(ya{s" + deep_s + b"})")
         out.append(b"(a{s" + deep_s + b"}y)")
-        out.append(b"(ya{s(y" + b"(" * (n - 2) + b"y" + b")" * (n - 2) + b")}y)")
+        out.append(b"(ya{s(y" + deep_s2 + b")}y)")
         # (5) deep ARRAY nest at every member position of a struct, as a dict value, and below an array of structs
         out.append(b"(" + deep_a + b")")
         out.append(b"(y" + deep_a + b")")
@@ -124,52 +130,81 @@ def member_position_shapes():
         out.append(b"a(" + deep_a1 + b"y)")
         out.append(b"a{s(y" + deep_a1 + b")}")
         out.append(b"a{s(" + deep_a1 + b"y)}")
-        # (6) arrays of structs all the way down, element at a non-first / non-last member: a(ya(ya(y..y)))
+        # (6) arrays of structs all the way down, element at a non-first / non-last member: a(ya(ya(y..L)))
         for pre, post in ((b"a(y", b")"), (b"a(", b"y)"), (b"a(y", b"y)"), (b"a{s(y", b")}"), (b"a{s(", b"y)}")):
-            if len(pre + post) * n + 1 <= 255:
-                out.append(pre * n + b"y" + post * n)
+            if len(pre + post) * n + len(L) <= 255:
+                out.append(pre * n + L + post * n)
     return out
 
 
-def boundary_strings():
+def nest_shapes(L=b"y", ns=range(29, 37), totals=(31, 32, 33, 34, 40, 64, 65)):
+    """pure and mixed nests of n levels around the innermost type L"""
     out = []
-    for n in range(29, 37):
-        out.append(b"a" * n + b"y")
-        out.append(b"(" * n + b"y" + b")" * n)
-        out.append(b"a{s" * n + b"y" + b"}" * n)
-        out.append(b"(a{s" * n + b"y" + b"})" * n)
-        out.append(b"a(" * n + b"y" + b")" * n)
-        out.append(b"a" * n + b"(" * n + b"y" + b")" * n)
-        out.append(b"a" * n + b"v")
-        out.append(b"a" * n)
-        out.append(b"(" * n + b")" * n)
-    for n in (253, 254, 255, 256, 257, 300):
-        out.append(b"y" * n)
-        out.append(b"(" + b"i" * (n - 2) + b")")
-        out.append(b"ay" * (n // 2) + b"y" * (n % 2))
+    for n in ns:
+        out.append(b"a" * n + L)
+        out.append(b"(" * n + L + b")" * n)
+        out.append(b"a{s" * n + L + b"}" * n)
+        out.append(b"(a{s" * n + L + b"})" * n)
+        out.append(b"a(" * n + L + b")" * n)
+        out.append(b"a" * n + b"(" * n + L + b")" * n)
+        out.append(b"(" * n + b"a" * n + L + b")" * n)
+        out.append(b"(" * n + b"a{s" * n + L + b"}" * n + b")" * n)
     # mixed nests: the array and struct counters must both survive entering the other kind of container, at every
     # split of the total, and as a non-first / non-last member of a sequence of types
-    for total in (31, 32, 33, 34, 40, 64, 65):
+    for total in totals:
         for m in sorted({0, 1, 2, total // 2, total - 2, total - 1, total}):
             n = total - m
             if m < 0 or n < 0:
                 continue
-            out.append(b"a" * m + b"(" + b"a" * n + b"y)")
-            out.append(b"(" * m + b"a" + b"(" * n + b"y" + b")" * (n + m))
-            out.append(b"(" * m + b"a" * n + b"y" + b")" * m)
-            out.append(b"a" * m + b"{s" + b"a" * n + b"y}" if m > 0 else b"y")
-            out.append(b"(" * m + b"a{s" + b"(" * n + b"y" + b")" * n + b"}" + b")" * m)
+            out.append(b"a" * m + b"(" + b"a" * n + L + b")")
+            out.append(b"(" * m + b"a" + b"(" * n + L + b")" * (n + m))
+            out.append(b"(" * m + b"a" * n + L + b")" * m)
+            out.append(b"a" * m + b"{s" + b"a" * n + L + b"}" if m > 0 else L)
+            out.append(b"(" * m + b"a{s" + b"(" * n + L + b")" * n + b"}" + b")" * m)
+    return out
+
+
+def leaf_shapes():
+    """every depth-boundary shape (struct, array, dict and mixed nests, every member position; 31..34 levels) with
+    each of the other LEAVES at the innermost position"""
+    out = []
+    for L in LEAVES[1:]:
+        out += nest_shapes(L, ns=(31, 32, 33, 34), totals=(31, 32, 33, 34))
+        out += member_position_shapes(L)
+    return list(dict.fromkeys(out))
+
+
+def seq_variants(b):
+    """the string as a non-first / non-last / repeated member of a top-level sequence of types"""
+    return [b"y" + b, b + b"y", b"y" + b + b"y", b + b]
+
+
+def boundary_strings(r=None, thorough=False):
+    out = []
+    for n in range(29, 37):
+        out.append(b"a" * n + b"v")
+        out.append(b"a" * n)
+        out.append(b"(" * n + b")" * n)
+    out += nest_shapes()
+    for n in (253, 254, 255, 256, 257, 300):
+        out.append(b"y" * n)
+        out.append(b"(" + b"i" * (n - 2) + b")")
+        out.append(b"ay" * (n // 2) + b"y" * (n % 2))
     out += member_position_shapes()
     base = list(out)
     for b in base:
         if len(b) < 250:
-            out.append(b"y" + b)
-            out.append(b + b"y")
-            out.append(b"y" + b + b"y")
-            out.append(b + b)
+            out += seq_variants(b)
+    # the same shapes around every other leaf; their sequence variants: all in the thorough tier, one drawn per
+    # shape in the quick tier
+    for b in leaf_shapes():
+        out.append(b)
+        if len(b) < 250:
+            vs = seq_variants(b)
+            out += vs if (thorough or r is None) else [r.choice(vs)]
     out += [b"", b"a{bv}", b"()", b"{sv}", b"a{vs}", b"a{(i)s}", b"a{ss", b"a{s}", b"a{sss}", b"a()", b"(a)", b"a{ay s}",
             b"aa{sv}", b"a{sa{sv}}", b"(a{sv}a{sv})", b"a{s(", b"}", b"{", b")", b"("]
-    return [s for s in out]
+    return list(dict.fromkeys(out))
 
 
 # ------------------------------------------------------------------ property predicate on one pair of lines
@@ -222,7 +257,8 @@ def run(ctx):
     ctx.rule = ("strings = exhaustive enumeration of all strings over the 19 type characters up to length %d "
                 "(enumerated inside the harness and the extracted model, compared by accepted set and count), "
                 "the empty string included; fixed nesting/length boundary strings (nesting limits 31..34 with the deep part at every "
-                "member position of a struct - first, middle, last, after a container member - and as a dict value, each also "
+                "member position of a struct - first, middle, last, after a container member - and as a dict value, every such shape "
+                "with each of the innermost types y v s g h av a{sv} (y) (v), each also "
                 "prefixed/suffixed/doubled and mutated), grammar-generated valid signatures and their single "
                 "mutations incl. foreign characters; a case is non-trivial when it contains a container character "
                 "( ) a { }; distinct = distinct byte strings") % (6 if thorough else 5)
@@ -252,8 +288,10 @@ def run(ctx):
             if line and not line.startswith("#"):
                 strings.append(bytes.fromhex(line) if line != "-" else b"")
     ncorpus = len(strings)
-    bnd = boundary_strings()
+    bnd = boundary_strings(r, thorough)
     strings += bnd
+    ctx.count("explicit:boundary-shapes", len(bnd))
+    ctx.count("explicit:boundary-shapes-with-non-y-leaf", len(leaf_shapes()))
     for b in bnd:
         for _ in range(2 if thorough else 1):
             m = mutate(r, b)
